@@ -135,6 +135,10 @@ SIBLINGS = {
 
 # changes whose author's demonstration is not a violation of the property as stated (kept for the record, not counted as misses)
 NOT_A_VIOLATION = {
+    'C16-r15-1': 'only affects .p8 rows spelled with upper-case hex digits: PICO-8 and picotool write lower-case digits, and the statement is '
+                 'about reading "such files" (files as the formats prescribe them); what a hand-edited upper-case row means is not stated',
+    'C17-r15-3': 'only affects set_rect_tiles() with an origin that itself lies beyond the last column or row (x >= 128, y >= 64): the statement '
+                 'ranges over in-contract coordinates; data that crosses an edge from an origin on the map is still clipped',
     'C06-r14-3': 'only affects quoted strings that spell `\\u{...}`: Lua 5.2 and PICO-8 have no such escape, and an unknown escape is a lexical '
                  'error of the dialect (Appendix A), so such a source is not one of the programs the statement ranges over',
     'C09-r4-3': 'only affects `0xff..s` (hex/binary numeral directly followed by `..`), which the Lua 5.2 / PICO-8 lexer rejects as a malformed '
